@@ -318,7 +318,7 @@ func rulesAbstractC(carrier, kind string, v reflect.Value, rules string, rng *ra
 
 // ------------------------------------------------------------------ abstraction of the error
 
-var rulesTokRe = regexp.MustCompile(`explain: (tk[0-9]+)$`)
+var rulesTokRe = regexp.MustCompile(`explain: (tk[0-9]+) ?$`)
 
 type rulesObs struct {
 	Verdict string   `json:"verdict"` // "0" no clause, "1" only rule clauses, "E" some other error text, "P" panic
@@ -847,6 +847,10 @@ func rulesAgree(args []string) error {
 		pool := []string{}
 		for i := 0; i < nrules; i++ {
 			tok := "tk" + strconv.Itoa(i)
+			msg := tok
+			if rng.Intn(3) == 0 {
+				msg = tok + " " // a message (hence a rule text) that ends in a blank: no carrier may trim it
+			}
 			if rng.Intn(2) == 0 || (class != "string" && rng.Intn(3) > 0) {
 				rule := rulesIntervalRules[rng.Intn(len(rulesIntervalRules))]
 				lo := rulesRndIn(rng, -3, 12)
@@ -854,14 +858,14 @@ func rulesAgree(args []string) error {
 				if rule == "to" || rule == "oto" {
 					hi = lo + rulesRndIn(rng, -2, 6)
 				}
-				rs = append(rs, rulesAgreeRule{Key: rule, Lo: lo, Hi: hi, Tok: tok, Iv: true, Text: rulesText(rule, lo, hi, tok)})
+				rs = append(rs, rulesAgreeRule{Key: rule, Lo: lo, Hi: hi, Tok: tok, Iv: true, Text: rulesText(rule, lo, hi, msg)})
 				pool = append(pool, strings.Repeat("x", rulesRndIn(rng, 1, 13)))
 			} else {
 				var fr = rulesFormat[rng.Intn(len(rulesFormat))]
 				for class != "string" && !fr.numeric {
 					fr = rulesFormat[rng.Intn(len(rulesFormat))]
 				}
-				rs = append(rs, rulesAgreeRule{Key: fr.text, Tok: tok, Iv: false, Text: fr.text + "|" + tok})
+				rs = append(rs, rulesAgreeRule{Key: fr.text, Tok: tok, Iv: false, Text: fr.text + "|" + msg})
 				pool = append(pool, fr.samples...)
 			}
 			texts = append(texts, rs[i].Text)
